@@ -91,6 +91,10 @@ type FieldRead struct {
 type G1[T io.Reader] struct{ v T }
 type G2[T any] struct{ v T }
 type G3[T fmt.Stringer] struct{ v T }
+type Pr[K comparable, V any] struct {
+	k K
+	v V
+}
 `
 
 // package-level probe values: (type expression)
@@ -112,6 +116,15 @@ var emGlobals = []string{
 	// instantiations of a generic type of another package, next to a non-generic type of that package
 	"atomic.Pointer[int]", "atomic.Pointer[string]", "atomic.Pointer[P]", "*atomic.Pointer[int]", "[]atomic.Pointer[int]", "atomic.Int64", "*atomic.Int64",
 	"G2[atomic.Pointer[int]]", "atomic.Pointer[atomic.Pointer[int]]",
+	// two positions of one composite holding instantiations of ONE generic type (every instantiation shares the TypeName of its
+	// origin): different type arguments, the same ones, the same ones spelled through an alias, swapped, nested, below a pointer --
+	// what a repeated pattern variable has to tell apart
+	"map[G2[int]]G2[string]", "map[G2[int]]G2[int]", "map[G2[P]]G2[*int]", "map[atomic.Pointer[int]]atomic.Pointer[string]",
+	"map[atomic.Pointer[int]]atomic.Pointer[int]", "map[Pr[string, int]]Pr[int, string]", "map[Pr[int, string]]Pr[int, string]", "map[*G2[int]]*G2[string]",
+	"func(G2[int]) G2[string]", "func(G2[int]) G2[int]", "func(G2[P]) G2[*int]", "func(atomic.Pointer[int]) atomic.Pointer[string]",
+	"func(Pr[string, int]) Pr[int, string]", "func(Pr[int, int]) Pr[int, int]", "func(G2[G2[int]]) G2[G2[string]]", "func(*G2[int]) *G2[string]",
+	"func([]G2[string]) []G2[string]", "func(G2[int], G2[string])", "func(G2[string], G2[string])", "func(atomic.Pointer[P], atomic.Pointer[*int])",
+	"struct{ a G2[int]; b G2[string] }", "struct{ a G2[int]; b G2[int] }", "struct{ a Pr[int, P]; b Pr[int, *int] }", "func(G2[int]) G3[Str]", "func(int) string", "func(Buf) bytes.Buffer",
 }
 
 // variable-free patterns (Go type expressions at the same time) for Type.Is / Type.Underlying().Is
@@ -148,6 +161,28 @@ var emVarPats = []struct {
 	{"is", "map[$t]$t", func(t types.Type) bool {
 		m, ok := types.Unalias(t).(*types.Map)
 		return ok && types.Identical(m.Key(), m.Elem())
+	}},
+	// a repeated variable: the second occurrence must be IDENTICAL to the first binding (go/types is asked about the two components)
+	{"is", "func($t) $t", func(t types.Type) bool {
+		s, ok := types.Unalias(t).(*types.Signature)
+		return ok && !s.Variadic() && s.Params().Len() == 1 && s.Results().Len() == 1 && types.Identical(s.Params().At(0).Type(), s.Results().At(0).Type())
+	}},
+	{"is", "func($t, $t)", func(t types.Type) bool {
+		s, ok := types.Unalias(t).(*types.Signature)
+		return ok && !s.Variadic() && s.Params().Len() == 2 && s.Results().Len() == 0 && types.Identical(s.Params().At(0).Type(), s.Params().At(1).Type())
+	}},
+	{"is", "struct{$t; $t}", func(t types.Type) bool {
+		s, ok := types.Unalias(t).(*types.Struct)
+		return ok && s.NumFields() == 2 && types.Identical(s.Field(0).Type(), s.Field(1).Type())
+	}},
+	{"uis", "map[$k]$k", func(t types.Type) bool {
+		m, ok := t.Underlying().(*types.Map)
+		return ok && types.Identical(m.Key(), m.Elem())
+	}},
+	{"is", "func($*_, $t) $t", func(t types.Type) bool {
+		s, ok := types.Unalias(t).(*types.Signature)
+		return ok && !s.Variadic() && s.Params().Len() >= 1 && s.Results().Len() == 1 &&
+			types.Identical(s.Params().At(s.Params().Len()-1).Type(), s.Results().At(0).Type())
 	}},
 	{"is", "[]*$_", func(t types.Type) bool {
 		s, ok := types.Unalias(t).(*types.Slice)
